@@ -615,6 +615,10 @@ class RawVoltageBackend(object):
         load_template : bool, optional
             Control whether the internal header template's keys are used.
         """
+        # Work on a copy: the header is filled in and PKTIDX advanced below, which 
+        # must neither leak into the shared default nor into the caller's dictionary
+        header_dict = dict(header_dict)
+        
         if length_mode == 'obs_length':
             if obs_length is None:
                 if self.input_num_blocks is not None:
